@@ -789,6 +789,7 @@ func (ch *chain) height(parent, grand module.Block, required int, mutate bool) b
 	}
 	bc.Dispose()
 	fbc.Dispose()
+	bfix.WaitLocators(ch.P) // fixture synchronisation, see lib/block
 	lp, _ := ch.P.BM.GetLastBlock()
 	lf, _ := ch.F.BM.GetLastBlock()
 	if lp == nil || lf == nil || !bytes.Equal(lp.ID(), lf.ID()) || lp.Height() != h {
